@@ -43,14 +43,17 @@ ENV_B = {"clock": 2.05e9 + 86400 * 200 + 3600 * 13 + 777, "host": "other-node-17
          "user": "builder2", "pid": 31337,
          "environ": {"HOME": "/sim/elsewhere", "LANG": "en_US.UTF-8", "TZ": "Asia/Tokyo",
                      "USER": "builder2", "SOURCE_DATE_EPOCH": "86400", "HOSTNAME": "other-node-17",
-                     "SHROUD_DEBUG": "1", "PWD": "/sim/other/cwd"}}
+                     "SHROUD_DEBUG": "1", "PWD": "/sim/other/cwd"},
+         # variables the interpreter itself reads at start-up (real process environment of the fresh run)
+         "interp": {"PYTHONOPTIMIZE": "1", "PYTHONUTF8": "1"}}
 
 
 def fresh_run(job, env, hashseed, snapshot=None, entry="cli", want_after=False, timeout=180):
     spec = {"job": job.to_json(), "snapshot": snapshot, "env": env, "entry": entry,
             "want_after": want_after}
     p = subprocess.run([PY, os.path.join(HERE, "fresh.py")], input=json.dumps(spec),
-                       capture_output=True, text=True, env=child_env(hashseed), timeout=timeout)
+                       capture_output=True, text=True,
+                       env=dict(child_env(hashseed), **(env.get("interp") or {})), timeout=timeout)
     if p.returncode != 0:
         return {"status": "harness-error", "message": p.stderr[-1500:], "files": {},
                 "trace": {"nops": 0, "reads": [], "written": {}, "escapes": []}, "probed": [], "env_used": env}
